@@ -589,8 +589,8 @@ def run_plan(rng, out, vendor):
 
 
 def shards(tier, seed):
-    n = 640 if tier == "quick" else 8000
-    nplan = 96 if tier == "quick" else 900
+    n = 640 if tier == "quick" else 64000
+    nplan = 96 if tier == "quick" else 3000
     return [{"seed": seed, "shard": i, "histories": n // NSHARDS, "plans": nplan // NSHARDS} for i in range(NSHARDS)]
 
 
